@@ -222,8 +222,14 @@ def aabb(rep, prog):
             tl, tr_ = strip(a["c"][0]), strip(a["c"][1])
             kind = "min" if c["op"] == "<" else "max"
             good = tl.get("k") == "DeclRefExpr" and tl["ref"]["did"] == r["ref"]["did"] and tr_.get("k") == "DeclRefExpr" and tr_["ref"]["did"] == l["ref"]["did"]
-            used = any(strip(cc).get("callee") == "node::is_used" and pol for cc, pol in fi.guards(n))
-            if good and used:
+            gs = fi.guards(n)
+            used = any(strip(cc).get("callee") == "node::is_used" and pol for cc, pol in gs)
+            only_used = all(strip(cc).get("callee") == "node::is_used" and pol for cc, pol in gs)
+            if good and used and not only_used:
+                rep.violation("C12.aabb", prog, fn, n, "aabb update of %s_%s is conditional on another test" % (kind, axis[l["ref"]["did"]]),
+                              "%s is only evaluated when %s: each of the six running extrema must be updated for every used node independently (e.g. an 'else if' chain skips the maximum test for the node that sets the minimum, so the box is not tight for some node orders)" % (short(n["cond"], 50), "; ".join(("not " if not pol else "") + short(cc, 40) for cc, pol in gs if strip(cc).get("callee") != "node::is_used")))
+                role[r["ref"]["did"]] = (kind, axis[l["ref"]["did"]])
+            elif good and used:
                 role[r["ref"]["did"]] = (kind, axis[l["ref"]["did"]])
                 rep.ok("C12.aabb", prog, fn, n, "running %s of axis %s over used nodes" % (kind, axis[l["ref"]["did"]]))
             else:
